@@ -121,4 +121,12 @@ MUTATIONS = [
 	M('c04-ref-indices-dropped', ['C04'], 'src/gambit/query.py', '\t\tref_indices=db.sig_indices,\n', '\t\tref_indices=db.sig_indices if len(db.sig_indices) != len(db.signatures) else None,\n', 'equivalent: indices dropped only when they cover the whole file in order? no - permuted files break', expect='silent'),
 	M('c04-ref-indices-range', ['C04'], 'src/gambit/query.py', '\t\tref_indices=db.sig_indices,\n', '\t\tref_indices=list(range(len(db.sig_indices))),\n', 'first n signatures of the file used instead of the matched ones'),
 	M('c04-id-attr-default-key', ['C04'], 'src/gambit/db/refdb.py', "\t\tif id_attr is None:\n\t\t\traise TypeError('id_attr field of signatures metadata cannot be None')\n", "\t\tif id_attr is None:\n\t\t\tid_attr = 'key'\n", 'missing id_attr silently defaults to key'),
+	# ---- C14 ----------------------------------------------------------------------------------------
+	M('c14-original-query-s', ['C14'], 'src/gambit/cli/query.py', '\t\tif sigs.kmerspec != db.signatures.kmerspec:', '\t\tif False:', 'pre-fix: query -s without parameter check'),
+	M('c14-compare-k-only', ['C14'], 'src/gambit/cli/dist.py', 'if query_sigs is not None and ref_sigs is not None and query_sigs.kmerspec != ref_sigs.kmerspec:', 'if query_sigs is not None and ref_sigs is not None and query_sigs.kmerspec.k != ref_sigs.kmerspec.k:', 'dist --qs/--rs compares k only'),
+	M('c14-error-but-exit0', ['C14'], 'src/gambit/cli/dist.py', "\t\t\traise click.ClickException(\n\t\t\t\tf'K-mer search parameters from command line options ({fmt_kspec(kspec)}) do not '\n\t\t\t\tf'match those of reference signatures", "\t\t\tclick.echo(\n\t\t\t\tf'K-mer search parameters from command line options ({fmt_kspec(kspec)}) do not '\n\t\t\t\tf'match those of reference signatures", 'explicit -k/-p vs reference signatures: message printed, command continues'),
+	M('c14-refs-default-params', ['C14'], 'src/gambit/cli/dist.py', 'ref_sigs = calc_file_signatures(kspec, ref_sigfiles, progress=ref_pconf)', 'ref_sigs = calc_file_signatures(DEFAULT_KMERSPEC if k is None else kspec, ref_sigfiles, progress=ref_pconf)', 'reference files use the default parameters when -k/-p are not given'),
+	M('c14-query-files-default', ['C14'], 'src/gambit/query.py', 'query_sigs = calc_file_signatures(db.signatures.kmerspec, files, **parse_kw)', 'from gambit.kmers import DEFAULT_KMERSPEC\n\tquery_sigs = calc_file_signatures(DEFAULT_KMERSPEC, files, **parse_kw)', 'query genome files parsed with the default parameters'),
+	M('c14-usedb-not-checked', ['C14'], 'src/gambit/cli/dist.py', '\t\tif ref_sigs is not None and ref_sigs.kmerspec != kspec:', '\t\tif ref_sigs is not None and not use_db and ref_sigs.kmerspec != kspec:', 'explicit -k/-p not checked against --use-db'),
+	M('c14-dbparams-ignored', ['C14'], 'src/gambit/cli/signatures.py', '\t\t\tkspec = ctx.obj.signatures.kmerspec\n', '\t\t\tkspec = DEFAULT_KMERSPEC\n', '--db-params silently uses the defaults'),
 ]
